@@ -105,7 +105,7 @@ def join_results(I, key, summ, actual_args):
             if isinstance(v, float):
                 classes.add(("const", v))
             else:
-                classes.add(v.attrs.get("f64class", "any"))
+                classes.add(f64_class(v))
         s = Sym("draw", (), "f64", attrs={"name": key.split("::")[-1], "f64classes": frozenset(classes)})
         I.run.event("draw", key.split("::")[-1], s)
         return s
@@ -121,6 +121,41 @@ def join_results(I, key, summ, actual_args):
         ln = lo if lo == hi else Sym("len", (), "usize", lo, hi)
         return Bytes([("pay", Payload("bytes", cs, ln, origin="entropy_bytes"))] if hi != 0 else [])
     raise I.unanalysable("cannot join results of %s: %r" % (key, vals[:3]))
+
+
+def f64_range(v):
+    """(lo, hi) closed float interval of a float term, or None when unknown"""
+    if isinstance(v, float):
+        return (v, v) if v == v else None
+    if isinstance(v, int):
+        return (float(v), float(v))
+    if not is_sym(v):
+        return None
+    if v.attrs.get("f64class") == "unit":
+        return (0.0, 1.0 - 2.0 ** -53)
+    if v.op == "cast" and is_sym(v.args[0]) and v.args[0].ty in INT_TYPES:
+        lo, hi = bounds(v.args[0])
+        return (float(lo), float(hi))
+    if v.op == "div" and isinstance(v.args[1], float) and v.args[1] > 0:
+        r = f64_range(v.args[0])
+        if r is not None:
+            return (r[0] / v.args[1], r[1] / v.args[1])
+    if v.op == "mul" and isinstance(v.args[1], float) and v.args[1] > 0:
+        r = f64_range(v.args[0])
+        if r is not None:
+            return (r[0] * v.args[1], r[1] * v.args[1])
+    return None
+
+
+def f64_class(v):
+    if "f64classes" in v.attrs and len(v.attrs["f64classes"]) == 1:
+        return next(iter(v.attrs["f64classes"]))
+    r = f64_range(v)
+    if r is not None and r[0] >= 0.0 and r[1] < 1.0:
+        return "unit"
+    if r is not None:
+        return ("range", r[0], r[1])
+    return v.attrs.get("f64class", "any")
 
 
 def _below(v, arg):
